@@ -1,20 +1,43 @@
-"""C38 GVCF/VDS combiner merges every input exactly once - checkpoint completeness and genome partitioning.
+"""C38 GVCF/VDS combiner merges every input exactly once - checkpoint completeness, resume safety, progress and genome partitioning.
 
 Decided from the syntax trees of hail/python/hail/vds/combiner/{variant_dataset_combiner,combine}.py (nothing is run):
   R1  every attribute a step function (step/_step_gvcfs/_step_vdses and the self-methods they call) mutates is a declared slot, and
       is serialised unless it is on the frozen list of deliberately transient slots
   R2  the saved plan is complete and loadable: every serialised slot is written by `to_dict` under the name of the `__init__`
-      parameter that restores it, every key is an `__init__` parameter, required parameters are all written, and every value
-      `to_dict` transforms has its inverse in `Decoder._object_hook` (or is normalised by `__init__`)
-  R3  `run` saves before every `step` and after the last one; `save`/`load` go through Encoder -> to_dict and
-      Decoder -> _object_hook -> VariantDatasetCombiner(**obj)
+      parameter that restores it (found with property setters and helpers inlined, locals followed), a serialised slot that __init__ sets
+      from no parameter is "never restored", every key is an `__init__` parameter, required parameters are all written, every value
+      `to_dict` transforms has its inverse in `Decoder._object_hook` and the hook does not rewrite a raw key
+  R3  `run` saves before every `step` and after the last one, returns only after `finished` was true, `step` always runs a step function
+      unless finished, `finished` tests every pending list; `save` dumps into open(save path, 'w'); save/load go through
+      Encoder -> to_dict and Decoder -> _object_hook -> VariantDatasetCombiner(**obj)
   R4  `calculate_even_genome_partitioning`: for every contig length and interval size of the evaluated domain the extracted loop
       emits closed intervals that cover every base 1..L exactly once
   R5  ... and no interval is longer than the requested size
+  R6  freshness of intermediate output paths ("stop after any step and resume ... each input used once"): the symbolic components of every
+      path a step writes (temp path, uuid, job counter, index ...) are classified as fresh per object (drawn from the closed table of fresh
+      sources in __init__ and not overwritten with something reproducible elsewhere) / saved-and-restored / persisted counter / reset on
+      reload; a path must have a component that differs (a) across save/resume, (b) between consecutive steps of one run (a counter bumped
+      on every path from the write to the end of step()), (c) between the datasets of one step (an index).  The overwrite flag decides
+      whether the collision is silent or loud (both break the property)
+  R7  progress ("terminates and produces one dataset"): the amounts a step removes from the plan (`self._gvcfs[n:]`, the fan-in of
+      `_step_vdses`, range strides) are >= 1 (>= 2 for the fan-in): interval analysis of those slots through every writer - the constructor
+      with its guards (also the decoder's way in), property setters (public entry, value assumed in the constructor's domain), other methods,
+      and stores from outside the class such as the resume path of new_combiner (setter stores inlined).  A may-violate interval is reported
+      only with a concrete witness found by evaluating the same statements on boundary values; otherwise the rule declines
+  R8  exactly-once bookkeeping inside a step: the slice taken for merging and the slice kept partition the pending list (complementary
+      bounds, take before keep), parallel lists advance in lockstep and are validated to have equal length, the chunking loop partitions the
+      batch, and the constructor keeps every input it is given
+  R9  the final dataset is written only under `finished`; otherwise the merged dataset is written, then recorded in the plan under the path
+      it was written to; a step never returns normally having done neither
+  R10 nothing a saved plan may still reference is deleted before `finished` (plan entries' paths, a directory containing an intermediate, the
+      plan file) - symbolic prefix comparison against the intermediate paths of R6
+  R11 new_combiner: every argument that defines the plan feeds the digest that names the generated save path (a plan found there belongs to
+      the same inputs), and the digest is part of that path
 R4/R5 evaluate the *extracted* statements of `calc_parts` with our own exact-integer interpreter, exhaustively over
 1 <= L, S <= 80 (200 in the thorough tier), on the mitochondrial contigs of GRCh37/GRCh38 for sizes 100..200, and on a few
 probe points on large real contigs.  Findings are keyed by failure kind (last base uncovered / gap / overlap / too long ...).
-Does not decide: termination of the merge plan, the merge arithmetic itself, what the engine does with the intervals.
+Does not decide: the merge arithmetic itself, what the engine does with the intervals, whether every taken file reaches the merge call
+(dataflow inside a step beyond the slices), failures of the file system between `save` and `step`.
 """
 from __future__ import annotations
 
@@ -29,12 +52,16 @@ from engines.common import AnalysisError, Ctx, read_repo
 
 META = dict(
     category='other',
-    text='Reader/writer agreement of the combiner\'s saved plan (slots <-> to_dict <-> __init__ <-> decoder hook), save-before-step dominance in '
-         'run, and an exhaustive small-domain evaluation (6400 (length, size) pairs + real mitochondrial contigs) of the extracted partitioning '
-         'loop by our own exact-integer interpreter. Structural necessary conditions; the merge itself needs the engine, hence "other".',
-    note='Trusted: CPython ast; the 40-line interpreter in this module (exact rationals for `/`, so float rounding of math.ceil(L / S) is not modelled). '
-         'Not decided: termination, merge arithmetic, engine behaviour.',
-    technique='static analysis: slot/def-use tables, CFG dominance, abstract evaluation of an extracted loop over a finite domain',
+    text='Reader/writer agreement of the combiner\'s saved plan (slots <-> to_dict <-> __init__ <-> decoder hook), save/step/finished control flow of run and step, '
+         'symbolic freshness analysis of every intermediate output path across save/resume, between steps and within a step, interval analysis (with concrete '
+         'witnesses) of the batch size / branch factor through all their writers incl. property setters and the resume path, take/keep slice partition of the '
+         'pending lists, plan identity of the generated save path, and an exhaustive small-domain evaluation (6400 (length, size) pairs + real mitochondrial contigs) '
+         'of the extracted partitioning loop by our own exact-integer interpreter. Structural necessary conditions; the merge itself needs the engine, hence "other".',
+    note='Trusted: CPython ast; engines/c38facts.py (symbolic path values, interval + concrete evaluators, setter inlining on top of engines/inline.py) and the 40-line '
+         'interpreter in this module (exact rationals for `/`, so float rounding of math.ceil(L / S) is not modelled). Closed tables: fresh sources (uuid4, urandom, clocks ...), '
+         'deterministic functions (uuid5, hashes ...), dataset writers, file deleters. Not decided: merge arithmetic, engine behaviour, dataflow from the taken files to the merge call.',
+    technique='static analysis: slot/def-use tables, CFG dominance / must-pass-through, symbolic string components, interval analysis with witness search, '
+              'abstract evaluation of an extracted loop over a finite domain',
     design_ref='DESIGN.md §3 C38',
 )
 
@@ -44,8 +71,8 @@ CLS = 'VariantDatasetCombiner'
 
 # slots that are deliberately not part of the saved plan (frozen, with reason)
 TRANSIENT_OK = {
-    '_uuid': 'fresh per process; only names temporary output directories',
-    '_job_id': 'only used in log lines and temporary directory names (together with the fresh _uuid)',
+    '_uuid': 'fresh per object (R6 checks that it really is); only names temporary output directories',
+    '_job_id': 'only used in log lines and temporary directory names (together with the fresh _uuid; R6 checks the combination)',
     '__intervals_cache': 'memo of calculate_new_intervals results; recomputed on demand after a reload',
 }
 MUTATORS = {'append', 'extend', 'insert', 'pop', 'remove', 'clear', 'update', 'add', 'discard', 'sort', 'reverse', 'setdefault', 'popitem'}
@@ -261,6 +288,13 @@ def check_roundtrip(ctx: Ctx, m: pf.Module, cls: ast.ClassDef, ser: List[str]) -
         s = slot_of_param.get(k)
         plain = s is not None and pf.nsrc(v) == f'self.{s}'
         if plain and k not in ENCODER_TYPED:
+            if k in rewrites:
+                rv = rewrites[k]
+                ident = isinstance(rv, ast.Call) and pf.dotted(rv.func) in ('list', 'tuple', 'dict', 'set', 'str', 'int', 'bool') and len(rv.args) == 1 \
+                    and pf.nsrc(rv.args[0]) == f"obj['{k}']"
+                ctx.need(ident or f"obj['{k}']" in {pf.nsrc(n) for n in ast.walk(rv) if isinstance(n, ast.Subscript)}, f'{F}::Decoder._object_hook: unrecognised rewrite of `{k}`')
+                ctx.check(ident, 'R2', f'{F}::Decoder._object_hook::{k}', f'to_dict writes `{k}` as the raw field `self.{s}` but the decoder replaces it by `{pf.nsrc(rv)[:70]}`: '
+                          f'the reloaded plan differs from the saved one (a resumed run continues with other {k} than the interrupted one)', m.path, rv.lineno)
             continue
         cons = f'{F}::Decoder._object_hook::{k}'
         if k in rewrites:
@@ -293,7 +327,7 @@ def check_roundtrip(ctx: Ctx, m: pf.Module, cls: ast.ClassDef, ser: List[str]) -
 def _init_param_map(m: pf.Module, init: pf.FuncDef):
     """(parameter -> slot, slot -> parameter, parameters normalised by set()/list(), serialised-looking slots set from no parameter).
     Analysed on __init__ with property setters and helpers inlined, following locals to the parameters they are computed from."""
-    _m2, init_i, _il = cf.inline_with_setters(m, CLS, '__init__')
+    _m2, init_i, _il = _inl(m, '__init__')
     params = [a.arg for a in init_i.args.kwonlyargs] + [a.arg for a in init_i.args.args[1:]]
     defs = pf.assignments(init_i)
 
@@ -306,7 +340,8 @@ def _init_param_map(m: pf.Module, init: pf.FuncDef):
                 elif n.id in defs and n.id not in seen:
                     for d in defs[n.id]:
                         if isinstance(d, ast.arg):
-                            out.add(n.id)
+                            if n.id in params:
+                                out.add(n.id)
                         elif isinstance(d, ast.expr):
                             out |= roots(d, seen + (n.id,))
         return out
@@ -333,11 +368,13 @@ def _init_param_map(m: pf.Module, init: pf.FuncDef):
             unrestored[attr] = pf.nsrc(nodes[-1].value)[:60]
     # `for vds in vdses: self._vdses[...].append(vds)`: parameter consumed through a loop
     for st in pf.walk_shallow(init_i):
-        if isinstance(st, ast.For) and isinstance(st.iter, ast.Name) and st.iter.id in params:
-            for attr, _n, _h in _mutations_in(st):
-                slot_of_param.setdefault(st.iter.id, attr)
-                param_of_slot[attr] = st.iter.id
-                unrestored.pop(attr, None)
+        if isinstance(st, ast.For):
+            ps = sorted(roots(st.iter))
+            if len(ps) == 1:
+                for attr, _n, _h in _mutations_in(st):
+                    slot_of_param.setdefault(ps[0], attr)
+                    param_of_slot[attr] = ps[0]
+                    unrestored.pop(attr, None)
     return slot_of_param, param_of_slot, wraps_set, unrestored
 
 
@@ -377,6 +414,45 @@ def _inverse_ok(k: str, wv: ast.expr, rv: ast.expr, local_defs) -> Optional[str]
 
 
 # ---------------------------------------------------------------------------------------------------------------------------
+def _empty_conjuncts(e: ast.AST) -> Optional[Set[str]]:
+    """Slots that `e` requires to be empty: `not self.a and not self.b`, `not (self.a or self.b)`, `len(self.a) == 0 and ...`."""
+    if isinstance(e, ast.BoolOp) and isinstance(e.op, ast.And):
+        out: Set[str] = set()
+        for v in e.values:
+            r = _empty_conjuncts(v)
+            if r is None:
+                return None
+            out |= r
+        return out
+    if isinstance(e, ast.UnaryOp) and isinstance(e.op, ast.Not):
+        o = e.operand
+        if cf.self_attr(o) is not None:
+            return {cf.self_attr(o)}  # type: ignore[arg-type]
+        if isinstance(o, ast.BoolOp) and isinstance(o.op, ast.Or) and all(cf.self_attr(v) is not None for v in o.values):
+            return {cf.self_attr(v) for v in o.values}  # type: ignore[misc]
+        return None
+    if isinstance(e, ast.Compare) and len(e.ops) == 1 and isinstance(e.ops[0], ast.Eq) and isinstance(e.comparators[0], ast.Constant) and e.comparators[0].value == 0 \
+            and isinstance(e.left, ast.Call) and pf.dotted(e.left.func) == 'len' and len(e.left.args) == 1 and cf.self_attr(e.left.args[0]) is not None:
+        return {cf.self_attr(e.left.args[0])}  # type: ignore[arg-type]
+    return None
+
+
+def _parallel_of(cm: cf.ClassModel, slot: str, pending: Set[str]) -> bool:
+    """True when `slot` is only ever sliced inside a branch together with another pending list (a parallel list such as the optional sample
+    names): its emptiness follows from the other list's."""
+    for f in cm.methods.values():
+        for st in pf.walk_shallow(f):
+            if isinstance(st, ast.If):
+                inner = {_self_attr_root(x.value.value) for b in st.body for x in ast.walk(b)
+                         if isinstance(x, ast.Assign) and isinstance(x.value, ast.Subscript) and isinstance(x.value.slice, ast.Slice)}
+                if slot in inner:
+                    outer = {_self_attr_root(x.value.value) for x in pf.walk_shallow(f) if isinstance(x, ast.Assign) and isinstance(x.value, ast.Subscript)
+                             and isinstance(x.value.slice, ast.Slice)} - inner
+                    if outer & pending:
+                        return True
+    return False
+
+
 def _is_self_call(n: pf.Node, name: str) -> bool:
     return any(pf.dotted(c.func) == f'self.{name}' for c in pf.node_calls(n))
 
@@ -416,11 +492,64 @@ def check_run(ctx: Ctx, m: pf.Module, cls: ast.ClassDef) -> None:
             bad = p
     ctx.check(bad is None, 'R3', cons, 'run can return after a step without saving: the saved plan still lists inputs that were already merged, a later resume merges them twice',
               m.path, run.lineno, extra=[repr(x) for x in bad] if bad else None)
+    # run() returns normally only after it has seen `finished` true (the loop is a loop), and step() always runs a step function unless finished
+    p = g.path_avoiding(g.entry, lambda n: n is g.exit, lambda n: False,
+                        edge_ok=lambda a, b, lab: lab != 'exc' and not (a.kind == 'test' and _implies_finished(a.ast, lab)))
+    ctx.check(p is None, 'R3', f'{F}::{CLS}.run::returns only when finished', 'run() can return normally without `self.finished` having been true '
+              f'(path {[repr(x) for x in (p or [])][-5:]}): pending inputs stay in the plan and the output dataset is never written', m.path, run.lineno)
+    cmx = cf.ClassModel(m, CLS)
+    stepf = cmx.methods.get('step')
+    ctx.need(stepf is not None, f'anchor vanished: {CLS}.step')
+    roots = _step_roots(cmx)
+    gs = pf.cfg(stepf)
+    is_root = lambda n: any(cf.self_attr(c.func) in roots for c in pf.node_calls(n) if isinstance(c.func, ast.Attribute))  # noqa: E731
+    p = gs.path_avoiding(gs.entry, lambda n: n is gs.exit, is_root,
+                         edge_ok=lambda a, b, lab: lab != 'exc' and not (a.kind == 'test' and _implies_finished(a.ast, lab)))
+    ctx.check(p is None, 'R3', f'{F}::{CLS}.step::always steps', f'step() can return without running one of {roots} although the plan is not exhausted '
+              f'(path {[repr(x) for x in (p or [])][-5:]}): run() then saves and steps forever on an unchanged plan', m.path, stepf.lineno)
+    # `finished` means: no pending input in any list the steps consume
+    fin = cmx.getters.get('finished')
+    ctx.need(fin is not None, f'anchor vanished: {CLS}.finished')
+    body = cf._strip_doc(fin.body)
+    ctx.need(len(body) == 1 and isinstance(body[0], ast.Return) and body[0].value is not None, f'{F}::{CLS}.finished: unrecognised shape')
+    empties = _empty_conjuncts(body[0].value)
+    ctx.need(empties is not None, f'{F}::{CLS}.finished: unrecognised condition `{pf.nsrc(body[0].value)}`')
+    pending: Set[str] = set()
+    for rn in roots:
+        for st in pf.walk_shallow(cmx.methods[rn]):
+            if isinstance(st, ast.Assign) and isinstance(st.value, ast.Subscript) and isinstance(st.value.slice, ast.Slice):
+                sl = _self_attr_root(st.value.value)
+                if sl is not None:
+                    pending.add(sl)
+    ctx.need(pending, f'{F}::{CLS}: no pending list found in {roots}')
+    extra_checked = empties - pending
+    main = pending - {x for x in pending if _parallel_of(cmx, x, pending)}
+    ctx.check(main <= empties, 'R3', f'{F}::{CLS}.finished::covers every pending list',
+              f'`finished` is `{pf.nsrc(body[0].value)}` but the steps consume {sorted(main)}: with entries left in {sorted(main - empties)} the combiner reports '
+              f'finished, run() stops and those inputs never reach the output' + (f' (also tests {sorted(extra_checked)})' if extra_checked else ''), m.path, fin.lineno)
     # save -> json.dump(self, ..., cls=Encoder); Encoder.default -> o.to_dict()
     save = methods['save']
     dumps = [c for c in pf.calls_in(save) if pf.dotted(c.func) == 'json.dump']
     ok = bool(dumps) and all(c.args and pf.nsrc(c.args[0]) == 'self' and any(k.arg == 'cls' and pf.nsrc(k.value) == 'Encoder' for k in c.keywords) for c in dumps)
     ctx.check(ok, 'R3', f'{F}::{CLS}.save::json.dump', 'save must dump `self` with cls=Encoder', m.path, save.lineno)
+    # ... into a stream opened for writing on the save path
+    slot_of_param, _pos, _ws, _un = _init_param_map(m, methods['__init__'])
+    ctx.need('save_path' in slot_of_param, f'{F}::{CLS}.__init__: save_path parameter not found')
+    symc = cf.Sym(m, cmx, cf.named_tuples(m))
+    targets = []
+    for w in [n for n in pf.walk_shallow(save) if isinstance(n, (ast.With, ast.AsyncWith))]:
+        for it in w.items:
+            if isinstance(it.optional_vars, ast.Name) and isinstance(it.context_expr, ast.Call) and isinstance(it.context_expr.func, ast.Attribute) \
+                    and it.context_expr.func.attr == 'open' and it.context_expr.args:
+                used = any(len(c.args) >= 2 and isinstance(c.args[1], ast.Name) and c.args[1].id == it.optional_vars.id for c in dumps if any(c is x for x in ast.walk(w)))
+                if used:
+                    mode = it.context_expr.args[1].value if len(it.context_expr.args) > 1 and isinstance(it.context_expr.args[1], ast.Constant) else None
+                    targets.append((symc.ev(it.context_expr.args[0], save), mode, w))
+    ctx.need(targets, f'{F}::{CLS}.save: no `with <fs>.open(path, mode) as out: json.dump(self, out, ...)` found')
+    okp = any(v == ('slot', slot_of_param['save_path']) and mode in ('w', 'wt') for v, mode, _w in targets)
+    ctx.check(okp, 'R3', f'{F}::{CLS}.save::writes the save path', f'save() dumps the plan to {[(cf.render(v), mode) for v, mode, _w in targets]} instead of writing '
+              f'self.{slot_of_param["save_path"]}: load_combiner / new_combiner read the plan from the save path, so a resumed run starts from a stale or missing plan',
+              m.path, targets[0][2].lineno)
     enc = _methods(m.cls('Encoder')).get('default')
     ctx.need(enc is not None, 'anchor vanished: Encoder.default')
     ok = False
@@ -714,12 +843,33 @@ DELETERS = {'remove', 'rmtree', 'rm', 'rmdir', 'unlink', 'hadoop_rm', 'delete', 
 PLAN_ADD = {'append', 'extend', 'insert', 'add', 'update', 'setdefault'}
 
 
+_inl_cache: Dict[Tuple[str, str, bool], tuple] = {}
+
+
+def _inl(m: pf.Module, target: str, setter: bool = False):
+    """cf.inline_with_setters, memoised per (file, method): callers treat the result as read-only."""
+    k = (m.path, target, setter)
+    if k not in _inl_cache:
+        _inl_cache[k] = cf.inline_with_setters(m, CLS, target, target_is_setter=setter)
+    return _inl_cache[k]
+
+
+_root_cache: Dict[Tuple[str, str], '_Root'] = {}
+
+
+def _root(m: pf.Module, name: str) -> '_Root':
+    k = (m.path, name)
+    if k not in _root_cache:
+        _root_cache[k] = _Root(m, name)
+    return _root_cache[k]
+
+
 class _Root:
     """One step function (a method `step` calls) with helpers and setters inlined."""
 
     def __init__(self, m: pf.Module, name: str):
         self.name = name
-        self.m2, self.fn, self.il = cf.inline_with_setters(m, CLS, name)
+        self.m2, self.fn, self.il = _inl(m, name)
         self.cm = cf.ClassModel(self.m2, CLS)
         cf.resolve_property_reads(self.fn, self.cm.getter_alias())
         self.sym = cf.Sym(self.m2, self.cm, cf.named_tuples(self.m2))
@@ -804,7 +954,7 @@ def _slot_writes_outside_init(m: pf.Module, cm: cf.ClassModel, slot_or_props: Se
 
 def _slot_facts(ctx: Ctx, m: pf.Module, cm: cf.ClassModel, ser: List[str], closure: List[str]):
     """How each slot gets its value in a new object, and how the steps advance it."""
-    m_i, init_i, _il = cf.inline_with_setters(m, CLS, '__init__')
+    m_i, init_i, _il = _inl(m, '__init__')
     cm_i = cf.ClassModel(m_i, CLS)
     sym_i = cf.Sym(m_i, cm_i, cf.named_tuples(m_i))
     init_vals: Dict[str, List[cf.Val]] = {}
@@ -882,7 +1032,7 @@ def check_paths(ctx: Ctx, m: pf.Module, cls: ast.ClassDef, ser: List[str], slots
     ctx.need('output_path' in slot_of_param and 'save_path' in slot_of_param, f'{F}::{CLS}.__init__: output_path / save_path parameters not found')
     OUTPUT_SLOT[0], SAVE_SLOT[0] = slot_of_param['output_path'], slot_of_param['save_path']
     init_vals, counters, other_stores, _sym_i = _slot_facts(ctx, m, cm, ser, closure)
-    roots = [_Root(m, r) for r in _step_roots(cm)]
+    roots = [_root(m, r) for r in _step_roots(cm)]
     ctx.need(roots, f'{CLS}.step calls no step function')
     for r in roots:
         ctx.need(not r.il.skipped, f'{F}::{CLS}.{r.name}: helper(s) that could not be inlined: {r.il.skipped[:3]}')
@@ -907,7 +1057,7 @@ def check_paths(ctx: Ctx, m: pf.Module, cls: ast.ClassDef, ser: List[str], slots
         if not _has_fresh(v):
             ext_bad[attr] = f'{q} (`{pf.nsrc(st)[:70]}`)'
     # job-counter discipline on `step` with everything inlined (names may clash there: only the control flow is used)
-    _ms, step_i, il_s = cf.inline_with_setters(m, CLS, 'step')
+    _ms, step_i, il_s = _inl(m, 'step')
     gs = pf.CFG(step_i)
     inter_nodes = []
     for c in pf.calls_in(step_i):
@@ -964,6 +1114,8 @@ def check_paths(ctx: Ctx, m: pf.Module, cls: ast.ClassDef, ser: List[str], slots
             ctx.ok('R6', cons + '::resume', {'path': shown, 'components': comps})
         else:
             ctx.need(not unknown, f'{cons}: cannot resolve path component(s) {[cf.render(x) for x in unknown][:3]} of `{shown}`')
+            ctx.need(not any(x[0] in ('slotelem', 'field') for x in lv), f'{cons}: path `{shown}` is derived from the entries being merged (content-addressed): '
+                     'whether two writes of it can differ is not decided')
             ctx.bad('R6', cons + '::resume',
                     f'intermediate path `{shown}` is not distinct across save/resume: no component is fresh per object or a persisted counter ['
                     + '; '.join(comps) + f']. History: a run writes this path in some job N, records it in the plan, the plan is saved and the process stops; '
@@ -1108,40 +1260,72 @@ def check_deletions(ctx: Ctx, m: pf.Module, cm: cf.ClassModel, ser: List[str], i
     only before the NEXT step, so a deletion inside the class of a plan entry's path / the intermediates directory / the plan file is
     premature: the plan on disk still names the deleted dataset when the process stops."""
     n = 0
-    resolved: Dict[Tuple[int, int], Tuple[str, cf.Val, ast.Call]] = {}
-    unresolved: Dict[Tuple[int, int], str] = {}
+    # site -> list of (context method, value, call, guarded by `finished`); a site is identified by the position of the call only to recognise
+    # the same call again wherever its method is inlined
+    seen: Dict[Tuple[int, int], List[Tuple[str, cf.Val, ast.Call, bool]]] = {}
 
     def owner(c: ast.Call) -> str:
         for name, f in cm.methods.items():
             if f.lineno <= c.lineno <= (f.end_lineno or f.lineno):
                 return name
         return '?'
+
+    def is_deleter(c: ast.Call) -> bool:
+        if isinstance(c.func, ast.Attribute):
+            return c.func.attr in DELETERS and bool(c.args) and _self_attr_root(c.func.value) is None
+        return isinstance(c.func, ast.Name) and c.func.id in DELETERS and bool(c.args)
+    called: Set[str] = set()
+    for f in list(cm.methods.values()) + list(cm.setters.values()) + list(cm.getters.values()):
+        for c in pf.calls_in(f, into_nested_defs=True):
+            a = cf.self_attr(c.func, f.args.args[0].arg) if isinstance(c.func, ast.Attribute) and f.args.args else None
+            if a is not None:
+                called.add(a)
     for name, fn0 in list(cm.methods.items()):
+        helper = name.startswith('_') and not name.startswith('__') and name in called and not fn0.decorator_list
         if fn0.decorator_list or not fn0.args.args or name == '__init__':
-            fn, sym = fn0, cf.Sym(m, cm, cf.named_tuples(m))
+            fn, sym, g = fn0, cf.Sym(m, cm, cf.named_tuples(m)), pf.cfg(fn0)
         else:
-            r = _Root(m, name)
-            fn, sym = r.fn, r.sym
+            r = _root(m, name)
+            fn, sym, g = r.fn, r.sym, r.g
+            for hn, _line, _why in r.il.skipped:
+                h = cm.methods.get(hn)
+                ctx.need(h is None or not any(is_deleter(c) for c in pf.calls_in(h)), f'{F}::{CLS}.{name}: helper {hn} deletes files but cannot be inlined')
         for c in pf.calls_in(fn):
-            if isinstance(c.func, ast.Attribute) and c.func.attr in DELETERS and c.args and _self_attr_root(c.func.value) is None:
-                site = (c.lineno, c.col_offset)  # identity of the call site only (the same call is seen again wherever its method is inlined)
+            if is_deleter(c):
                 v = sym.ev(c.args[0], fn)
-                if any(x[0] in ('unknown', 'param') for x in cf.leaves(v)) and _deletion_verdict(v, inter) is None:
-                    unresolved.setdefault(site, f'{F}::{CLS}.{owner(c)}: cannot tell what `{pf.nsrc(c)[:70]}` deletes')
-                else:
-                    resolved.setdefault(site, (owner(c), v, c))
-    for site, msg in unresolved.items():
-        if site not in resolved:
-            raise AnalysisError(msg)
-    for _site, (name, v, c) in sorted(resolved.items()):
-        why = _deletion_verdict(v, inter)
-        if why is None and _deletion_undecided(v, inter):
-            raise AnalysisError(f'{F}::{CLS}.{name}: cannot tell whether `{pf.nsrc(c)[:70]}` removes an intermediate the plan references')
+                if helper and any(x[0] == 'param' for x in cf.leaves(v)):
+                    continue  # decided where the helper is inlined, with the caller's argument
+                guarded = all(g.path_avoiding(g.entry, lambda x, nn=nn: x is nn, lambda x: False,
+                                              edge_ok=lambda a, b, lab: lab != 'exc' and not (a.kind == 'test' and _implies_finished(a.ast, lab))) is None
+                              for nn in g.node_of(c))
+                seen.setdefault((c.lineno, c.col_offset), []).append((name, v, c, guarded))
+    for _site, ctxs in sorted(seen.items()):
         n += 1
-        cons = f'{F}::{CLS}.{name}::{c.func.attr}({cf.render(v)})'  # type: ignore[attr-defined]
-        ctx.check(why is None, 'R10', cons, f'{name} deletes {why} (`{pf.nsrc(c)[:70]}`) although the plan saved on disk may still list it: run() saves the plan '
-                  f'only before the next step, so stopping right after this call and resuming from the saved plan reads a dataset that no longer exists',
-                  m.path, c.lineno)
+        ctxs.sort(key=lambda t: (t[3], t[0] != owner(t[2])))  # report an unguarded context first
+        reported = False
+        for name, v, c, guarded in ctxs:
+            if name == owner(c) and len(ctxs) > 1 and name in called and name.startswith('_') and not name.startswith('__'):
+                continue  # a private helper also seen inlined in its callers: the callers' verdicts count
+            why = _deletion_verdict(v, inter)
+            cname = pf.dotted(c.func) or getattr(c.func, 'attr', '?')
+            cons = f'{F}::{CLS}.{owner(c)}::{cname.split(".")[-1]}({cf.render(v)})'
+            if why is None:
+                if any(x[0] in ('unknown', 'param') for x in cf.leaves(v)) or _deletion_undecided(v, inter):
+                    if guarded:
+                        continue
+                    raise AnalysisError(f'{F}::{CLS}.{name}: cannot tell whether `{pf.nsrc(c)[:70]}` removes something the plan references')
+                continue
+            if guarded and v != ('slot', SAVE_SLOT[0]):
+                continue  # only reached once `finished` was true: the plan lists nothing any more
+            ctx.bad('R10', cons, f'{name} deletes {why} (`{pf.nsrc(c)[:70]}`) although the plan saved on disk may still list it: run() saves the plan '
+                    f'only before the next step, so stopping right after this call and resuming from the saved plan reads a dataset that no longer exists',
+                    m.path, c.lineno)
+            reported = True
+            break
+        if not reported:
+            name, v, c, guarded = ctxs[0]
+            cname = pf.dotted(c.func) or getattr(c.func, 'attr', '?')
+            ctx.ok('R10', f'{F}::{CLS}.{owner(c)}::{cname.split(".")[-1]}({cf.render(v)})', {'guarded_by_finished': guarded})
     # positive control: the recogniser sees a premature deletion in a synthetic step
     probe = ast.parse('class K:\n def _s(self):\n  f = self._vdses[1][:2]\n  for x in f:\n   fs.rmtree(x.path)\n').body[0]
     pm = pf.Module('<probe>', '<probe>', '', ast.Module(body=[probe], type_ignores=[]))
@@ -1227,8 +1411,9 @@ def _plan_slices(r: _Root, ser: List[str]) -> Tuple[List[_Slice], List[_Slice]]:
 
 def check_progress(ctx: Ctx, m: pf.Module, cls: ast.ClassDef, ser: List[str]) -> None:
     cm = cf.ClassModel(m, CLS)
-    roots = [_Root(m, r) for r in _step_roots(cm)]
+    roots = [_root(m, r) for r in _step_roots(cm)]
     need: Dict[str, Tuple[int, str]] = {}
+    expr_reqs: List[Tuple[str, ast.AST, int, str, int]] = []  # (step function, expression, minimum, why, line)
     lockstep: List[Tuple[str, List[str]]] = []
 
     def require(slot: str, bound: int, why: str) -> None:
@@ -1282,7 +1467,7 @@ def check_progress(ctx: Ctx, m: pf.Module, cls: ast.ClassDef, ser: List[str]) ->
                             for sl in fs:
                                 require(sl, 1, f'{r.name} removes `self.{t.slot}[:{pf.nsrc(kn)}]` per step')
                         else:
-                            need.setdefault('expr:' + pf.nsrc(kn), (1, f'{r.name} removes `self.{t.slot}[:{pf.nsrc(kn)}]` per step'))
+                            expr_reqs.append((r.name, kn, 1, f'{r.name} removes `self.{t.slot}[:{pf.nsrc(kn)}]` per step', k.st.lineno))
                 elif ok and tk == 'head':
                     # fan-in of a merge whose single result goes back into the same slot
                     adds = [c for c in pf.calls_in(r.fn) if isinstance(c.func, ast.Attribute) and c.func.attr in PLAN_ADD
@@ -1290,6 +1475,8 @@ def check_progress(ctx: Ctx, m: pf.Module, cls: ast.ClassDef, ser: List[str]) ->
                     a = cf.self_attr(tn)
                     if adds and a is not None:
                         require(a, 2, f'{r.name} replaces up to self.{a} entries of self.{t.slot} by one merged entry')
+                    elif adds:
+                        expr_reqs.append((r.name, tn, 2, f'{r.name} replaces up to `{pf.nsrc(tn)}` entries of self.{t.slot} by one merged entry', t.st.lineno))
         if len(top_bounds) >= 2:
             lockstep.append((r.name, sorted(top_bounds)))
             vals = set(top_bounds.values())
@@ -1301,10 +1488,17 @@ def check_progress(ctx: Ctx, m: pf.Module, cls: ast.ClassDef, ser: List[str]) ->
                 a = cf.self_attr(pf.expand_locals(r.fn, c.args[2]))
                 if a is not None:
                     require(a, 1, f'{r.name} iterates with range(..., self.{a})')
-    ctx.need(any(not k.startswith('expr:') for k in need), f'{F}::{CLS}: no slice of the pending inputs found in the step functions')
+    ctx.need(need or expr_reqs, f'{F}::{CLS}: no slice of the pending inputs found in the step functions')
+    check_chunking(ctx, m, roots)
+    check_ctor_inputs(ctx, m, cm, ser)
+    for _rn, e, _b, _w, _l in expr_reqs:
+        for n in ast.walk(e):
+            a = cf.self_attr(n)
+            if a is not None and a not in need and a not in cm.consts:
+                need[a] = (-cf.INF, 'read by a step size expression')  # no bound of its own: only its interval is needed
 
     # lists consumed in lockstep must be validated to have the same length when the object is (re)built
-    m_i, init_i, _il = cf.inline_with_setters(m, CLS, '__init__')
+    m_i, init_i, _il = _inl(m, '__init__')
     _sp, param_of_slot, _ws, _un = _init_param_map(m, cf.ClassModel(m, CLS).methods['__init__'])
     for rname, sl in lockstep:
         ps = [param_of_slot.get(x) for x in sl]
@@ -1327,7 +1521,108 @@ def check_progress(ctx: Ctx, m: pf.Module, cls: ast.ClassDef, ser: List[str]) ->
                   f'from a saved plan) does not reject {sorted(lens)} of different lengths: a plan with fewer names than inputs mislabels or drops samples',
                   m.path, init_i.lineno)
 
-    check_sizes(ctx, m, cm, {k: v for k, v in need.items() if not k.startswith('expr:')}, param_of_slot)
+    accepted = check_sizes(ctx, m, cm, need, param_of_slot)
+    consts = cm.const_env()
+    for rname, e, bound, why, line in expr_reqs:
+        cons = f'{F}::{CLS}.{rname}::step size `{_norm_arith(e)}`'
+        ae = cf.AbsExec('self', consts, cons)
+        env = {f'self.{k}': v for k, v in accepted.items()}
+        iv = ae.ev(e, env)
+        if iv.lo >= bound:
+            ctx.ok('R7', cons, {'interval': repr(iv), 'needs': f'>= {bound}'})
+            continue
+        ctx.need(not ae.atoms, f'{cons}: depends on {sorted(ae.atoms)}, which the analysis does not track')
+        keys = sorted(k for k in env if any(cf.self_attr(n) == k[5:] for n in ast.walk(e)))
+        wit = None
+        import itertools as _it
+        for combo in _it.product(*[[int(x) for x in (env[k].lo, env[k].lo + 1, env[k].lo + 2) if x != -cf.INF and x <= env[k].hi] or [0, 1, 2] for k in keys]):
+            try:
+                val = cf.Concrete('self', consts).ev(e, dict(zip(keys, combo)))
+            except Exception:  # noqa: BLE001 - not evaluable: no witness from this point
+                continue
+            if val < bound:
+                wit = (dict(zip(keys, combo)), val)
+                break
+        ctx.need(wit is not None, f'{cons}: interval {iv} (needs >= {bound}) but no concrete slot values reaching a smaller value were found')
+        ctx.bad('R7', cons, f'{why}, so `{pf.nsrc(e)}` must be >= {bound}, but the values every writer guarantees ({", ".join(f"{k} in {env[k]}" for k in keys)}) allow '
+                f'{", ".join(f"{k}={v}" for k, v in wit[0].items())} -> {wit[1]}: ' + ('a step then removes nothing from the plan and run() never finishes' if wit[1] <= 0 else
+                'a merge then replaces one entry by one entry, the plan never shrinks and run() never finishes'), m.path, line)
+
+
+def check_chunking(ctx: Ctx, m: pf.Module, roots: List[_Root]) -> None:
+    """`for i in range(0, len(xs), k): ... xs[i : i + k]`: the chunks partition the list only if every slice indexed by the loop variable
+    runs from i to i + k with the k of the range."""
+    for r in roots:
+        for loop in [n for n in pf.walk_shallow(r.fn) if isinstance(n, ast.For)]:
+            it = loop.iter
+            if not (isinstance(it, ast.Call) and pf.dotted(it.func) == 'range' and len(it.args) == 3 and isinstance(loop.target, ast.Name)):
+                continue
+            var, k = loop.target.id, _norm_arith(pf.expand_locals(r.fn, it.args[2]))
+            start0 = isinstance(it.args[0], ast.Constant) and it.args[0].value == 0
+            covered = isinstance(it.args[1], ast.Call) and pf.dotted(it.args[1].func) == 'len'
+            for st in loop.body:
+                for sub in [n for n in pf.walk_shallow(st) if isinstance(n, ast.Subscript) and isinstance(n.slice, ast.Slice)]:
+                    sl = sub.slice
+                    if not any(isinstance(x, ast.Name) and x.id == var for x in ast.walk(sl)):
+                        continue
+                    cons = f'{F}::{CLS}.{r.name}::chunks of {pf.nsrc(sub.value)}'
+                    ctx.need(start0 and covered and sl.step is None, f'{cons}: unrecognised chunking loop `{pf.nsrc(it)}`')
+                    lo_ok = isinstance(sl.lower, ast.Name) and sl.lower.id == var
+                    up = pf.expand_locals(r.fn, sl.upper) if sl.upper is not None else None
+                    up_ok = isinstance(up, ast.BinOp) and isinstance(up.op, ast.Add) and _norm_arith(up) == _norm_arith(
+                        ast.BinOp(left=ast.Name(id=var, ctx=ast.Load()), op=ast.Add(), right=pf.expand_locals(r.fn, it.args[2])))
+                    ctx.check(lo_ok and up_ok, 'R8', cons, f'{r.name} walks `{pf.nsrc(it)}` but merges `{pf.nsrc(sub)}`: the chunks do not partition the batch - '
+                              f'entries between two chunks are in no dataset, or entries are in two (chunk stride `{k}`)', m.path, sub.lineno)
+
+
+def check_ctor_inputs(ctx: Ctx, m: pf.Module, cm: cf.ClassModel, ser: List[str]) -> None:
+    """The constructor (which also rebuilds the object from a saved plan) keeps every input it is given: a list parameter is stored whole, or
+    every element of it is appended unconditionally."""
+    _m, init_i, _il = _inl(m, '__init__')
+    _sp, param_of_slot, _ws, _un = _init_param_map(m, cm.methods['__init__'])
+    pending: Set[str] = set()
+    for rn in _step_roots(cm):
+        for st in pf.walk_shallow(cm.methods[rn]):
+            if isinstance(st, ast.Assign) and isinstance(st.value, ast.Subscript) and isinstance(st.value.slice, ast.Slice):
+                sl = _self_attr_root(st.value.value)
+                if sl is not None and sl in ser:
+                    pending.add(sl)
+    for slot in sorted(pending):
+        p = param_of_slot.get(slot)
+        ctx.need(p is not None, f'{F}::{CLS}.__init__: cannot tell which parameter fills self.{slot}')
+        cons = f'{F}::{CLS}.__init__::self.{slot} keeps every {p}'
+        whole = [st for st in pf.walk_shallow(init_i) if isinstance(st, ast.Assign) and any(cf.self_attr(t) == slot for t in st.targets)]
+        loops = [st for st in pf.walk_shallow(init_i) if isinstance(st, ast.For) and any(a == slot for a, _n, _h in _mutations_in(st))]
+        verdicts: List[Tuple[bool, ast.AST, str]] = []
+        for st in whole:
+            v = st.value
+            if isinstance(v, ast.Call) and pf.dotted(v.func) in ('list', 'tuple') and len(v.args) == 1:
+                v = v.args[0]
+            if isinstance(v, ast.Name) and v.id == p:
+                verdicts.append((True, st, ''))
+            elif isinstance(v, ast.Subscript) and isinstance(v.slice, ast.Slice) and isinstance(v.value, ast.Name) and v.value.id == p \
+                    and (v.slice.lower is not None or v.slice.upper is not None):
+                verdicts.append((False, st, f'`{pf.nsrc(st)[:70]}` stores only a slice of `{p}`'))
+            elif isinstance(v, ast.ListComp) and len(v.generators) == 1 and isinstance(v.generators[0].iter, ast.Name) and v.generators[0].iter.id == p \
+                    and v.generators[0].ifs and pf.nsrc(v.elt) == pf.nsrc(v.generators[0].target):
+                verdicts.append((False, st, f'`{pf.nsrc(st)[:70]}` filters `{p}`'))
+            elif p in pf.names_in(v):
+                raise AnalysisError(f'{cons}: unrecognised `{pf.nsrc(st)[:70]}`')
+        for lp in loops:
+            if not (isinstance(lp.iter, ast.Name) and lp.iter.id == p):
+                if p in pf.names_in(lp.iter):
+                    verdicts.append((False, lp, f'the loop runs over `{pf.nsrc(lp.iter)[:50]}`, not over all of `{p}`'))
+                continue
+            adds = [c for c in pf.calls_in(lp) if isinstance(c.func, ast.Attribute) and c.func.attr in ('append', 'add') and _self_attr_root(c.func.value) == slot]
+            ctx.need(len(adds) == 1 and isinstance(lp.target, ast.Name), f'{cons}: unrecognised loop')
+            top = any(isinstance(st, ast.Expr) and st.value is adds[0] for st in lp.body)
+            same = len(adds[0].args) == 1 and isinstance(adds[0].args[0], ast.Name) and adds[0].args[0].id == lp.target.id
+            skips = any(isinstance(x, (ast.Continue, ast.Break)) for x in ast.walk(lp))
+            verdicts.append((top and same and not skips, lp, f'the loop over `{p}` does not append every element (`{pf.nsrc(adds[0])[:60]}` is conditional or appends something else)'))
+        ctx.need(verdicts, f'{cons}: no store found')
+        bad = [v for v in verdicts if not v[0]]
+        ctx.check(not bad, 'R8', cons, (bad[0][2] if bad else '') + f': inputs given to the constructor - or listed in the saved plan it is rebuilt from - never enter '
+                  f'self.{slot}, so they are in no dataset', m.path, (bad[0][1] if bad else verdicts[0][1]).lineno)
 
 
 def _int_params(fn: pf.FuncDef) -> List[str]:
@@ -1356,11 +1651,11 @@ def _analyse_writer(where: str, stmts: List[ast.stmt], recv: str, consts: Dict[s
     return iv, wit, len(ivs)
 
 
-def check_sizes(ctx: Ctx, m: pf.Module, cm: cf.ClassModel, need: Dict[str, Tuple[int, str]], param_of_slot: Dict[str, str]) -> None:
+def check_sizes(ctx: Ctx, m: pf.Module, cm: cf.ClassModel, need: Dict[str, Tuple[int, str]], param_of_slot: Dict[str, str]) -> Dict[str, cf.Iv]:
     """Interval analysis of the slots that size a step, through every writer: the constructor (also run by the decoder on every reload), property
     setters, other methods, and stores from outside the class."""
     consts = cm.const_env()
-    m_i, init_i, _il = cf.inline_with_setters(m, CLS, '__init__')
+    m_i, init_i, _il = _inl(m, '__init__')
     recv = init_i.args.args[0].arg
     defaults: Dict[str, int] = {}
     for a, d in list(zip(init_i.args.kwonlyargs, init_i.args.kw_defaults)):
@@ -1372,7 +1667,7 @@ def check_sizes(ctx: Ctx, m: pf.Module, cm: cf.ClassModel, need: Dict[str, Tuple
 
     def report(cons: str, slot: str, iv: Optional[cf.Iv], wit, line: int, who: str, entry_note: str = '') -> None:
         bound, why = need[slot]
-        if iv is None:
+        if iv is None or bound == -cf.INF:
             return
         if iv.lo >= bound:
             ctx.ok('R7', cons, {'interval': repr(iv), 'needs': f'>= {bound}'})
@@ -1394,7 +1689,7 @@ def check_sizes(ctx: Ctx, m: pf.Module, cm: cf.ClassModel, need: Dict[str, Tuple
 
     # property setters
     for prop in sorted(cm.setters):
-        m_s, fn_s, _ = cf.inline_with_setters(m, CLS, prop, target_is_setter=True)
+        m_s, fn_s, _ = _inl(m, prop, True)
         written = {a for a, _n, _h in _mutations(fn_s)} & set(need)
         for slot in sorted(written):
             bound = need[slot][0]
@@ -1409,7 +1704,9 @@ def check_sizes(ctx: Ctx, m: pf.Module, cm: cf.ClassModel, need: Dict[str, Tuple
             iv, wit, _n = _analyse_writer(cons, fn_s.body, fn_s.args.args[0].arg, consts, entry, slot, bound, {ps[0]: pv} if pv is not None else {})
             report(cons, slot, iv, wit, fn_s.lineno, f'the public setter `{prop}`', f' although it is given a value the constructor accepts ({ps[0]} in {accepted[slot]})')
 
-    # other stores: methods other than __init__, and code outside the class (e.g. the resume path of new_combiner)
+    # other stores (1): methods of the class other than __init__ / setters.  A private helper that other methods call is analysed where it is
+    # inlined (with the arguments of that call); every other method is an entry point: its own parameters are unconstrained, the object
+    # satisfies the invariant on entry
     props_to_slots: Dict[str, Set[str]] = {}
     for prop, f in cm.setters.items():
         ws = {a for a, _n, _h in _mutations(f)} & set(need)
@@ -1417,47 +1714,77 @@ def check_sizes(ctx: Ctx, m: pf.Module, cm: cf.ClassModel, need: Dict[str, Tuple
             props_to_slots[prop] = ws
     attrs = set(need) | set(props_to_slots)
     n_ext = 0
-    for q, fn, st, attr in _slot_writes_outside_init(m, cm, attrs):
-        obj = st.targets[0].value.id if isinstance(st, ast.Assign) and isinstance(st.targets[0], ast.Attribute) else getattr(getattr(st, 'target', None), 'value', ast.Name(id='?')).id  # type: ignore[union-attr]
-        in_class = q.startswith(CLS + '.')
-        if in_class and q.split('.')[1] in cm.setters and fn is cm.setters[q.split('.')[1]]:
-            continue  # analysed above
-        if in_class and attr in props_to_slots and fn.args.args and obj == fn.args.args[0].arg and q.split('.')[1] == '__init__':
+    called: Set[str] = set()
+    for f in list(cm.methods.values()) + list(cm.setters.values()) + list(cm.getters.values()):
+        for c in pf.calls_in(f, into_nested_defs=True):
+            a = cf.self_attr(c.func, f.args.args[0].arg) if isinstance(c.func, ast.Attribute) and f.args.args else None
+            if a is not None:
+                called.add(a)
+    for name, f0 in cm.methods.items():
+        if name == '__init__' or not f0.args.args or 'staticmethod' in pf.decorator_names(f0):
             continue
+        if name.startswith('_') and not name.startswith('__') and name in called and not f0.decorator_list:
+            continue
+        _mm, fn_m, il_m = _inl(m, name)
+        written = {a for a, _n, _h in _mutations(fn_m)} & set(need)
+        if not written:
+            continue
+        ctx.need(not il_m.skipped, f'{F}::{CLS}.{name}: helper(s) that could not be inlined: {il_m.skipped[:2]}')
+        rcv = fn_m.args.args[0].arg
+        for slot in sorted(written):
+            n_ext += 1
+            entry = {f'self.{other}': accepted[other] for other in need}
+            cons = f'{F}::{CLS}.{name}::self.{slot}'
+            iv, wit, _n = _analyse_writer(cons, fn_m.body, rcv, consts, entry, slot, need[slot][0], {})
+            report(cons, slot, iv, wit, fn_m.lineno, f'{CLS}.{name}', ' starting from an object that satisfies the bound')
+
+    # other stores (2): stores on another object - code outside the class, static methods (e.g. the resume path of new_combiner, load)
+    for q, fn, st, attr in _slot_writes_outside_init(m, cm, attrs):
+        t = st.targets[0] if isinstance(st, ast.Assign) else st.target  # type: ignore[union-attr]
+        ctx.need(isinstance(t, ast.Attribute) and isinstance(t.value, ast.Name), f'{F}::{q}: unrecognised store `{pf.nsrc(st)[:60]}`')
+        obj = t.value.id  # type: ignore[union-attr]
+        in_class = q.startswith(CLS + '.')
+        if in_class and fn.args.args and obj == fn.args.args[0].arg and 'staticmethod' not in pf.decorator_names(fn):
+            continue  # a store on self: covered by the constructor / setter / method analyses above
         n_ext += 1
-        # the function with stores through setters on `obj` inlined
-        g = _copy_with_setters(fn, obj, cm)
-        top = m.func(q.split('.')[0]) if not in_class else None
-        entry: cf.Env = {}
+        g = _copy_with_setters(fn, obj, cm)  # stores through setters on `obj` inlined
         forwarded: Dict[str, str] = {}
-        if top is not None:
-            for c in pf.calls_in(top, into_nested_defs=True):
+        if not in_class:
+            for c in pf.calls_in(m.func(q.split('.')[0]), into_nested_defs=True):
                 if pf.dotted(c.func) == CLS:
                     for k in c.keywords:
                         if isinstance(k.value, ast.Name) and k.arg is not None:
                             forwarded[k.arg] = k.value.id
-        else:
-            for other in need:
-                entry[f'self.{other}'] = accepted[other]
         for slot in sorted(props_to_slots.get(attr, {attr}) & set(need)):
             bound = need[slot][0]
             p = param_of_slot.get(slot)
-            e2 = dict(entry)
+            e2: cf.Env = {f'self.{other}': accepted[other] for other in need}  # whatever combiner `obj` is bound to came out of the constructor
             note = ''
             if p in forwarded:
                 # the very value the fresh path hands to the validating constructor: in the constructor's accepted domain
                 e2[forwarded[p]] = accepted[slot]
                 note = f' although `{forwarded[p]}` is a value the constructor accepts ({accepted[slot]})'
             cons = f'{F}::{q}::{obj}.{attr} = {pf.nsrc(getattr(st, "value", st))[:50]}'
-            g2 = g
-            if in_class and obj == (fn.args.args[0].arg if fn.args.args else None):
-                rcv = obj
-            else:
-                rcv = obj
-            iv, wit, _n = _analyse_writer(cons, g2.body, rcv, consts, e2, slot, bound, {forwarded[p]: defaults[p]} if p in forwarded and p in defaults else {})
+            iv, wit, _n = _analyse_writer(cons, g.body, obj, consts, e2, slot, bound, {forwarded[p]: defaults[p]} if p in forwarded and p in defaults else {})
             ctx.need(iv is not None, f'{cons}: store not reached by the interval analysis')
             report(cons, slot, iv, wit, st.lineno, f'`{pf.nsrc(st)[:70]}` in {q}', note)
+    if ctx.tier == 'thorough':
+        # closure: nobody else in the Python package stores to these attributes
+        n_files = 0
+        for rel in pf.walk_py(['hail/python/hail']):
+            if rel == F:
+                continue
+            n_files += 1
+            try:
+                mo = pf.load(rel)
+            except AnalysisError:
+                continue
+            for node in ast.walk(mo.tree):
+                if isinstance(node, ast.Attribute) and isinstance(node.ctx, ast.Store) and node.attr in attrs:
+                    raise AnalysisError(f'{rel}:{node.lineno}: store to `.{node.attr}` outside {F} - this writer of a step size is not analysed')
+        ctx.unit('files_scanned_for_size_slot_stores', n_files)
     ctx.unit('size_slot_writers', n_ext + len(need))
+    return accepted
 
 
 def _copy_with_setters(fn: pf.FuncDef, obj: str, cm: cf.ClassModel) -> pf.FuncDef:
@@ -1481,6 +1808,90 @@ def _copy_with_setters(fn: pf.FuncDef, obj: str, cm: cf.ClassModel) -> pf.FuncDe
     return g
 
 
+# ---------------------------------------------------------------------------------------------------------------------------
+# R11: a plan found under the generated save path belongs to the same inputs
+# ---------------------------------------------------------------------------------------------------------------------------
+def check_plan_identity(ctx: Ctx, m: pf.Module) -> None:
+    nc = m.func('new_combiner')
+    where = f'{F}::new_combiner'
+    ctors = [c for c in pf.calls_in(nc) if pf.dotted(c.func) == CLS]
+    ctx.need(len(ctors) == 1 and not ctors[0].args, f'{where}: expected one {CLS}(...) call with keyword arguments')
+    params = {a.arg for a in nc.args.kwonlyargs + nc.args.args}
+    defs = pf.assignments(nc)
+    # values re-applied to a loaded plan (they are allowed to differ between the plan and the call)
+    overrides: Set[str] = set()
+    loads_plan = False
+    for sub in [n for n in ast.walk(nc) if isinstance(n, (ast.FunctionDef, ast.AsyncFunctionDef)) and n is not nc]:
+        for st in pf.walk_shallow(sub):
+            if isinstance(st, ast.Assign) and isinstance(st.targets[0], ast.Attribute) and isinstance(st.value, ast.Name):
+                overrides.add(st.value.id)
+        loads_plan = loads_plan or any((pf.dotted(c.func) or '').split('.')[-1] in ('load_combiner', 'load') for c in pf.calls_in(sub))
+    ctx.need(loads_plan, f'{where}: the resume path (load_combiner) was not found')
+    # what feeds the hash
+    hashers = {n for n, ds in defs.items() for d in ds if isinstance(d, ast.Call) and (pf.dotted(d.func) or '').startswith('hashlib.')}
+    ctx.need(hashers, f'{where}: no hashlib object found')
+    hashed: Set[str] = set()
+    par: Dict[ast.AST, ast.AST] = {}
+    for a in ast.walk(nc):
+        for c in ast.iter_child_nodes(a):
+            par[c] = a
+    n_upd = 0
+    for c in pf.calls_in(nc):
+        if isinstance(c.func, ast.Attribute) and c.func.attr == 'update' and isinstance(c.func.value, ast.Name) and c.func.value.id in hashers and c.args:
+            n_upd += 1
+            names = pf.names_in(c.args[0])
+            hashed |= names
+            cur = par.get(c)
+            while cur is not None and cur is not nc:
+                if isinstance(cur, ast.For) and pf.names_in(cur.target) & names:
+                    hashed |= pf.names_in(cur.iter)
+                    names = names | pf.names_in(cur.iter)
+                cur = par.get(cur)
+    ctx.need(n_upd >= 3, f'{where}: fewer than 3 hash updates found')
+    # the digest names the save path
+    flows = False
+    work: List[Tuple[ast.AST, int]] = [(d, 0) for d in defs.get('save_path', []) if isinstance(d, ast.expr)]
+    seen_names: Set[str] = set()
+    while work and not flows:
+        e, depth = work.pop()
+        for x in ast.walk(e):
+            if isinstance(x, ast.Call) and isinstance(x.func, ast.Attribute) and x.func.attr in ('hexdigest', 'digest') and isinstance(x.func.value, ast.Name) \
+                    and x.func.value.id in hashers:
+                flows = True
+            elif isinstance(x, ast.Name) and x.id not in seen_names and depth < 4:
+                seen_names.add(x.id)
+                work += [(d, depth + 1) for d in defs.get(x.id, []) if isinstance(d, ast.expr)]
+    ctx.check(flows, 'R11', f'{where}::digest names the save path', 'the generated save_path does not contain the digest of the arguments: plans of different '
+              'combines share one file and new_combiner resumes the wrong one', m.path, nc.lineno)
+
+    def direct_params(n: str) -> Set[str]:
+        """Parameters named in the defining expressions of local `n` (one level: names are shared between loops, so deeper closure would mix them up)."""
+        out: Set[str] = set()
+        for d in defs.get(n, []):
+            if isinstance(d, (ast.For, ast.AsyncFor, ast.comprehension)):
+                d = d.iter  # a loop target comes from the iterable, not from the loop body
+            if isinstance(d, ast.AST) and not isinstance(d, ast.arg):
+                out |= pf.names_in(d) & params
+        return out
+    for k in ctors[0].keywords:
+        ctx.need(k.arg is not None, f'{where}: **kwargs in the constructor call')
+        names = pf.names_in(k.value)
+        if k.arg == 'save_path' or (isinstance(k.value, ast.Name) and k.value.id in overrides):
+            continue
+        cons = f'{where}::{k.arg} identifies the plan'
+        cand: Set[str] = set()
+        for n in names:
+            cand.add(n)
+            if n not in params and n in defs and n not in hashed:
+                dp = direct_params(n)
+                ctx.need(dp, f'{where}: cannot tell which arguments `{n}` (passed as `{k.arg}`) is computed from')
+                cand |= dp  # the parameters a local is computed from
+        ok = bool(cand & hashed)
+        ctx.check(ok, 'R11', cons, f'new_combiner passes `{k.arg}={pf.nsrc(k.value)}` to the constructor but nothing it is computed from ({sorted(cand & (params | set(defs)))[:6]}) '
+                  f'feeds the digest that names the generated save path: a second call with a different `{k.arg}` finds the plan of the first call at the same path '
+                  f'and resumes it (maybe_load_from_saved_path re-applies only {sorted(overrides)}) - the output is built from the other call\'s inputs', m.path, k.value.lineno)
+
+
 def run(ctx: Ctx) -> None:
     ctx.explanation = ('Slot / to_dict / __init__ / decoder-hook tables compared key by key; CFG dominance of save over step in run; symbolic components of '
                        'every intermediate output path classified as fresh per object / persisted / reset on reload; interval analysis of the slots that size a '
@@ -1489,15 +1900,16 @@ def run(ctx: Ctx) -> None:
                        '1..80 x 1..80 and for the real mitochondrial contigs.')
     ctx.rule('R1', 'attributes mutated by the step functions are serialised slots (or on the frozen transient list)', 5)
     ctx.rule('R2', 'saved plan complete and loadable: slots <-> to_dict keys <-> __init__ parameters <-> decoder inverses', 45)
-    ctx.rule('R3', 'run saves before every step and after the last; save/load go through Encoder.to_dict / Decoder._object_hook', 5)
+    ctx.rule('R3', 'run saves before every step and after the last, loops until `finished` (= no pending list), step always steps; save/load go through Encoder.to_dict / Decoder._object_hook', 9)
     ctx.rule('R4', 'even genome partitioning covers every base of a contig exactly once (evaluated domain)', 1)
     ctx.rule('R5', 'no interval of the even genome partitioning is longer than the requested size (evaluated domain)', 3)
     ctx.rule('R6', 'every intermediate dataset path is distinct from every path the plan may still reference: across save/resume (a component fresh per object '
                    'or a persisted counter), across the steps of one run (a counter advanced after every write) and within a step (an index)', 5)
-    ctx.rule('R7', 'every step removes at least one input: the slots that size a step (batch size, branch factor) stay >= their minimum through every writer', 4)
-    ctx.rule('R8', 'a step merges exactly the entries it removes from the plan: take/keep slices partition the pending list, in that order, parallel lists in lockstep', 9)
-    ctx.rule('R9', 'the final dataset is written exactly when the plan is exhausted; otherwise the merged dataset is written, then recorded under the written path', 12)
+    ctx.rule('R7', 'every step removes at least one input: the slots that size a step (batch size, branch factor) stay >= their minimum through every writer', 5)
+    ctx.rule('R8', 'a step merges exactly the entries it removes from the plan: take/keep slices partition the pending list, in that order, parallel lists in lockstep; chunks partition a batch; the constructor keeps every input', 15)
+    ctx.rule('R9', 'the final dataset is written exactly when the plan is exhausted; otherwise the merged dataset is written, then recorded under the written path', 10)
     ctx.rule('R10', 'nothing a saved plan may still reference is deleted (plan entries, the intermediates directory, the plan file)', 2)
+    ctx.rule('R11', 'the generated save path is a digest of every argument that defines the plan (a plan found there belongs to the same inputs)', 15)
     ctx.assume('math.ceil(a / b) is modelled with exact rationals (float rounding of very large quotients is not modelled)')
     ctx.assume('hl.Interval(start, end, includes_start, includes_end) denotes the locus positions start..end with the stated closedness')
     ctx.assume('uuid.uuid4 / uuid1 / secrets / os.urandom / clock reads never repeat a value (closed table FRESH in engines/c38facts.py); uuid5 / uuid3 / hashes are functions of their arguments')
@@ -1508,7 +1920,7 @@ def run(ctx: Ctx) -> None:
     ser, _slots = check_slots(ctx, m, cls)
     declined: List[str] = []
     for part in (lambda: check_roundtrip(ctx, m, cls, ser), lambda: check_run(ctx, m, cls), lambda: check_paths(ctx, m, cls, ser, _slots),
-                 lambda: check_progress(ctx, m, cls, ser), lambda: check_partitioning(ctx, m)):
+                 lambda: check_progress(ctx, m, cls, ser), lambda: check_plan_identity(ctx, m), lambda: check_partitioning(ctx, m)):
         try:
             part()
         except AnalysisError as e:  # keep going: a violation established by another rule must not be masked by a decline here
